@@ -152,14 +152,20 @@ def o_all_pairs(ctx):
 def o_disulfide_consequence(ctx):
     """a bridged cysteine is not titratable and is reported as 99.99"""
     import propka.group as G
-    p = H.params()
+    # the parameter file may give the cysteine sulfur a model pKa of its own (custom_model_pkas CYS-SG, a line a user can add)
+    custom = ctx.choice('custom_model_pka_for_CYS_SG', [False, True])
+    p = H.params(fresh=True) if custom else H.params()
+    model = 9.0
+    if custom:
+        model = ctx.real('custom_model_pka', 6.0, 11.0)
+        p.custom_model_pkas['CYS-SG'] = model
     bridged = ctx.choice('bridged', [False, True])
     sg = H.atom('SG', 'CYS', 5, 'A', 0.0, 0.0, 0.0)
     sg.cysteine_bridge = bridged
     g = G.CYSGroup(sg)
     g.parameters = p
     g.setup()
-    ctx.claim('model-pka', eq(g.model_pka, 9.0))
+    ctx.claim('model-pka', eq(g.model_pka, model))
     ctx.claim('titratable-iff-not-bridged', g.titratable == (not bridged))
     g.energy_volume = ctx.real('ev', -5, 5)
     g.energy_local = ctx.real('el', -5, 5)
@@ -167,7 +173,7 @@ def o_disulfide_consequence(ctx):
     if bridged:
         ctx.claim('bridged-reports-99.99', eq(g.pka_value, 99.99))
     else:
-        ctx.claim('free-cys-sum', eq(g.pka_value, 9.0 + g.energy_volume + g.energy_local))
+        ctx.claim('free-cys-sum', eq(g.pka_value, model + g.energy_volume + g.energy_local))
     ctx.claim('reported-either-way', g.use_in_calculations() is True)
 
 
@@ -312,7 +318,7 @@ def obligations(tier):
                           bounds='atom 1 at the origin, atom 2 in [-3,3]^3, 4 element pairs, both pair-loop functions', max_paths=6000))
     obs.append(Obligation('O4-disulfide-consequence', o_disulfide_consequence,
                           code=['propka/group.py:Group.setup', 'propka/group.py:Group.calculate_total_pka', 'propka/group.py:Group.use_in_calculations'],
-                          bounds='bridge flag in {0,1}, desolvation terms in [-5,5]'))
+                          bounds='bridge flag in {0,1}, desolvation terms in [-5,5], parameter file with or without a custom model pKa for CYS-SG (symbolic in [6,11])'))
     obs.append(Obligation('O4-disulfide-consequence[titrate_only]', o_disulfide_with_selection,
                           code=['propka/conformation_container.py:ConformationContainer.init_group', 'propka/group.py:Group.setup', 'propka/group.py:Group.calculate_total_pka'],
                           bounds='bridge flag in {0,1} x --titrate_only absent / naming the residue / naming another / empty', kind='table-check',
